@@ -738,6 +738,9 @@ class IRGenerator:
 
                     annotation.set_attributes(annotation_type)
 
+        for namespace in self.api.namespaces.values():
+            env = self._get_or_create_env(namespace.name)
+
             for alias in namespace.aliases:
                 data_type = self._resolve_type(env, alias._ast_node.type_ref)
                 alias.set_attributes(alias._ast_node.doc, data_type)
